@@ -192,6 +192,20 @@ Proof.
   apply uR_parts in Q. apply Q.
 Qed.
 
+Lemma opt_u_pass (o : option (list hexpr)) c3 (orel : list pstmt) c4 :
+  match o with Some l => Forall unames l | None => True end ->
+  match o with
+  | None => ([], c3)
+  | Some o0 => let '(ro, c4) := cbranch o0 rempty None c3 in (or_pass (rs (radd ro (expr_as_stmt ro))), c4)
+  end = (orel, c4) -> uL orel = true.
+Proof.
+  intros Ho E. destruct o as [o0|]; [|inversion E; reflexivity].
+  destruct (cbranch o0 rempty None c3) as [ro c4'] eqn:Ero. inversion E; subst.
+  pose proof (cbranch_u o0 Ho _ _ _ _ _ Ero eq_refl I) as R.
+  assert (Q : uR (radd ro (expr_as_stmt ro)) = true) by (apply uR_radd; [|apply uR_eas]; exact R).
+  apply uR_parts in Q. apply uL_or_pass. apply Q.
+Qed.
+
 Theorem compile_unames : forall e, uses e = true -> unames e.
 Proof.
   induction e using hexpr_ind'; intros Hu c r c' Hc; cbn [uses] in Hu.
@@ -307,7 +321,7 @@ Proof.
        let '(fin, c4) :=
          match f with
          | None => ([], c3)
-         | Some f0 => let '(rf, c4) := cbranch f0 rempty None c3 in (rs (radd rf (expr_as_stmt rf)), c4)
+         | Some f0 => let '(rf, c4) := cbranch f0 rempty None c3 in (or_pass (rs (radd rf (expr_as_stmt rf))), c4)
          end in
        let body_stmts :=
          or_pass (match orel with
@@ -340,9 +354,9 @@ Proof.
         rewrite uL_app, A, uL_one, uS_assign, B. reflexivity. }
       destruct (match f with
                 | None => ([], c3)
-                | Some f0 => let '(rf, c4) := cbranch f0 rempty None c3 in (rs (radd rf (expr_as_stmt rf)), c4)
+                | Some f0 => let '(rf, c4) := cbranch f0 rempty None c3 in (or_pass (rs (radd rf (expr_as_stmt rf))), c4)
                 end) as [fin c4] eqn:Ef.
-      pose proof (opt_u f _ _ _ Hf Ef) as F4. inversion Hc; subst.
+      pose proof (opt_u_pass f _ _ _ Hf Ef) as F4. inversion Hc; subst.
       apply uR_mk; [|reflexivity | reflexivity]. rewrite uL_one, uS_try, H2', O3, F4.
       match goal with |- context [uL (or_pass ?X)] => assert (B1 : uL (or_pass X) = true) end.
       { apply uL_or_pass. destruct orel.
